@@ -340,4 +340,24 @@ theorem c13_gen_NewTree_walk (H : HashFns) (fuel : Nat) (root : Gen.C13.TreeNode
   rw [walk_node (fun h d tn => Gen.C13.NewTree_visit H h d tn) hg 0 0 root []]
   rw [c13_gen_NewTree_visit_dfs]; simp
 
+
+/-- **`NewTree`'s identifier with every piece regenerated from the source** — the walk (`TreeNode.Visit`), the closure it drives,
+the `url` and the `ID:` expression: for fuel ≥ the height of the pointer tree the walk returns, and the id assembled from
+what it returns is the model's tree id of the forest the pointer tree stands for.  No hand-written step is left between
+`tree.go` and `treeId`; the pre-image theorems of Props/C13.lean (`c13_tree_collision_iff`, `c13_tree_full_nary_injective`, the
+two tree collisions) speak about this function. -/
+theorem c13_gen_NewTree_whole (H : HashFns) (ro : Gen.C13.Roster) (root : Gen.C13.TreeNode) (fuel : Nat)
+    (hf : VisitGen.heightNode root ≤ fuel) :
+    (Gen.C13.TreeNode_Visit H fuel root 0 (fun h d tn => Gen.C13.NewTree_visit H h d tn) []).map
+      (fun h => Gen.C13.NewTree_ID H (Gen.C13.NewTree_url H ro h)) = some (treeId H ro.ID (forestOfNode root .nil)) := by
+  rw [c13_gen_NewTree_walk H fuel root hf]
+  simp only [Option.map_some]
+  exact congrArg some (c13_gen_NewTree_ID_tree H ro _)
+
+/-- non-vacuity: on the pointer tree of the witness r(a(b,c)) the walk returns with fuel 3 -/
+example (H : HashFns) : let n (k : Nat) (ch : List Gen.C13.TreeNode) : Gen.C13.TreeNode := ⟨⟨[k], []⟩, ch⟩
+    Gen.C13.TreeNode_Visit H 3 (n 10 [n 11 [n 12 [], n 13 []]]) 0 (fun h d tn => Gen.C13.NewTree_visit H h d tn) [] = some (dfs wT1) := by
+  intro n
+  exact c13_gen_NewTree_walk H 3 (n 10 [n 11 [n 12 [], n 13 []]]) (by decide)
+
 end C13
